@@ -262,7 +262,27 @@ func VerifC13Lock() {
 	ts := w.(threadSafeDuplex[uint64])
 	lk = ts.lock
 	other := NewBitmap64()
-	switch verifrt.NondetChoice("method", 13) {
+	method := verifrt.NondetChoice("method", 17)
+	if method >= 13 {
+		// the spy is the wrapped *operand*: the receiver must reach it only through the
+		// operand wrapper, i.e. while the operand's own mutex is held
+		recv := ThreadSafeDuplex[uint64](NewBitmap64With(1, 2, 70000))
+		switch method {
+		case 13:
+			recv.Or(w)
+		case 14:
+			recv.And(w)
+		case 15:
+			recv.AndNot(w)
+		case 16:
+			recv.Xor(w)
+		}
+		verifrt.Assert(calls >= 1, "a wrapped operand is consulted through its wrapper")
+		verifrt.Assert(verifrt.Held(ts.lock) == 0, "operand wrapper releases its mutex")
+		verifrt.Assert(verifrt.Held(recv.(threadSafeDuplex[uint64]).lock) == 0, "receiver wrapper releases its mutex")
+		return
+	}
+	switch method {
 	case 0:
 		w.Add(1)
 	case 1:
